@@ -191,7 +191,7 @@ Qed.
 (* animations decoded FROM THE FILE BYTES, lossy frames decoded by the Model of the frame decoder *)
 Theorem play_from_file_closed c ms :
   wf c = true -> anim c = true -> Forall2 (frame_decodes_spec (fst (dims c)) (snd (dims c))) (frames c) ms ->
-  fst (dims c) * snd (dims c) * 4 < 4294967296 ->
+  fst (dims c) * snd (dims c) * 4 < 18446744073709551616 ->
   Anim_play.valid_file (anim_file c ms) /\
   exists dec, M.new (serialize c) = Ok dec /\
     forall buf, len buf = buffer_size c ->
@@ -202,7 +202,7 @@ Proof. intros Hwf Ha HF Hc. exact (play_from_file vp8dec c ms Hwf Ha (frames_dec
 
 Theorem read_frame_from_file_spec_closed c ms :
   wf c = true -> anim c = true -> Forall2 (frame_decodes_spec (fst (dims c)) (snd (dims c))) (frames c) ms ->
-  fst (dims c) * snd (dims c) * 4 < 4294967296 ->
+  fst (dims c) * snd (dims c) * 4 < 18446744073709551616 ->
   exists dec, M.new (serialize c) = Ok dec /\ M.num_frames dec = Z.of_nat (length ms) /\ (forall buf, len buf = buffer_size c ->
       (forall k, (k < length ms)%nat ->
          nth_error (play vp8dec dec (S (length ms)) buf) k =
